@@ -4,7 +4,6 @@ import (
 	"go/ast"
 	"go/token"
 	"go/types"
-	"strings"
 )
 
 func init() {
@@ -27,83 +26,62 @@ func runC25(c *Ctx) {
 	c.Rule("R25a", "Process.Fork: the F_FUNCTION arm stores p.Config.Copy() into fork.Config; the other arms store p.Config, or p.Config.Copy() under F_NEW_CONFIG")
 	if fd, _ := c.MustFunc("R25a", "lang", "Process", "Fork"); fd != nil {
 		rv := recvVar(fd)
-		isCopy := func(rhs ast.Expr) bool {
-			call, ok := unparen(rhs).(*ast.CallExpr)
-			if !ok || !callIs(linfo, call, mx("config"), "Config", "Copy") {
-				return false
+		classify := func(rhs ast.Expr) string {
+			rhs = unparen(rhs)
+			if call, ok := rhs.(*ast.CallExpr); ok && callIs(linfo, call, mx("config"), "Config", "Copy") {
+				if se := call.Fun.(*ast.SelectorExpr); selPath(se.X) == rv+".Config" {
+					return "copy"
+				}
 			}
-			se := call.Fun.(*ast.SelectorExpr)
-			return selPath(se.X) == rv+".Config"
-		}
-		// F_FUNCTION arm: classify copy as "fresh", parent as "parent"
-		// but the non-function arm may legitimately copy under F_NEW_CONFIG: classify with guard
-		var fnIf *ast.IfStmt
-		for _, s := range fd.Body.List {
-			if is, ok := s.(*ast.IfStmt); ok && strings.Contains(c.src(is.Cond), "F_FUNCTION") {
-				fnIf = is
+			if se, ok := rhs.(*ast.SelectorExpr); ok && se.Sel.Name == "Config" && selPath(se.X) == rv {
+				return "parent"
 			}
+			return "other:" + c.src(rhs)
 		}
-		if fnIf == nil {
-			c.Lost("R25a", "Fork:F_FUNCTION-branch", "no F_FUNCTION branch")
-		} else {
-			nFn, okFn := 0, true
-			ast.Inspect(fnIf.Body, func(nd ast.Node) bool {
-				if as, ok := nd.(*ast.AssignStmt); ok && len(as.Lhs) == 1 && len(as.Rhs) == 1 {
-					if se, ok := as.Lhs[0].(*ast.SelectorExpr); ok && se.Sel.Name == "Config" && selPath(se.X) == "fork" {
-						nFn++
-						if !isCopy(as.Rhs[0]) {
-							okFn = false
+		// the F_FUNCTION branch, the fork variable and the paths through each arm are found semantically (shared
+		// with R11a): every path through the function arm must end with the child copy; on every path through the
+		// other arms the last store is the copy exactly when the path took the F_NEW_CONFIG-set side of a test of
+		// that bit, and the parent's config when it took the clear side.
+		if fb := c.forkFunctionBranch(linfo, fd, "R25a"); fb != nil {
+			okFn := true
+			pathsFn := fb.storePaths(fb.fnArm, "Config", classify)
+			for _, p := range pathsFn {
+				if p.last() != "copy" {
+					okFn = false
+				}
+			}
+			c.Check(okFn && len(pathsFn) > 0, "R25a", "Fork:F_FUNCTION-arm:Config", fb.fnArm.Pos(), "the function arm stores fork.Config = p.Config.Copy() unconditionally (a function call gets its own child config)")
+			bit := c.forkFlagConsts()["F_NEW_CONFIG"]
+			okO, bad := true, ""
+			pathsO := fb.storePaths(fb.otherArm, "Config", classify)
+			for _, p := range pathsO {
+				newCfg := 0 // +1 the path knows F_NEW_CONFIG set, -1 clear
+				for _, f := range p.facts {
+					if pol, ok := flagBitTest(linfo, fb.defs, f.E, bit); ok {
+						if pol == f.True {
+							newCfg = 1
+						} else {
+							newCfg = -1
 						}
 					}
 				}
-				return true
-			})
-			c.Check(nFn == 1 && okFn && topLevelHas(fnIf.Body.List, "fork", "Config"), "R25a", "Fork:F_FUNCTION-arm:Config", fnIf.Body.Pos(), "the function arm stores fork.Config = p.Config.Copy() unconditionally (a function call gets its own child config)")
-			// other arm
-			el, _ := fnIf.Else.(*ast.BlockStmt)
-			nO, okO := 0, el != nil
-			if el != nil {
-				walkStack(el, func(nd ast.Node, stack []ast.Node) bool {
-					as, ok := nd.(*ast.AssignStmt)
-					if !ok || len(as.Lhs) != 1 || len(as.Rhs) != 1 {
-						return true
-					}
-					se, ok := as.Lhs[0].(*ast.SelectorExpr)
-					if !ok || se.Sel.Name != "Config" || selPath(se.X) != "fork" {
-						return true
-					}
-					nO++
-					newCfg := 0 // +1 guard says F_NEW_CONFIG set, -1 clear
-					for _, f := range factsOf(guardsAt(linfo, stack)) {
-						if strings.Contains(c.src(f.E), "F_NEW_CONFIG") {
-							b, isB := unparen(f.E).(*ast.BinaryExpr)
-							set := f.True
-							if isB && b.Op == token.EQL {
-								set = !set
-							}
-							if set {
-								newCfg = 1
-							} else {
-								newCfg = -1
-							}
-						}
-					}
-					switch {
-					case isCopy(as.Rhs[0]) && newCfg == 1:
-					case c.src(as.Rhs[0]) == rv+".Config" && newCfg == -1:
-					default:
-						okO = false
-					}
-					return true
-				})
+				switch {
+				case p.last() == "copy" && newCfg == 1:
+				case p.last() == "parent" && newCfg == -1:
+				default:
+					okO = false
+					bad = p.last()
+				}
 			}
-			c.Check(okO && nO == 2, "R25a", "Fork:other-arms:Config", fnIf.Pos(), "the non-function arms store p.Config.Copy() exactly under F_NEW_CONFIG and p.Config otherwise (%d stores)", nO)
+			c.Check(okO && len(pathsO) > 0 && !fb.laterStore(fd, "Config"), "R25a", "Fork:other-arms:Config", fb.fnIf.Pos(), "the non-function arms store p.Config.Copy() exactly under F_NEW_CONFIG and p.Config otherwise (%d paths) %s", len(pathsO), bad)
 		}
 	}
 
 	c.Rule("R25d", "Config.Copy returns newConfiguration(g) with g = conf.global when non-nil, else conf itself; newConfiguration copies no values and stores its argument as the parent")
 	if fd, _ := c.MustFunc("R25d", "config", "Config", "Copy"); fd != nil {
-		rv := recvVar(fd)
+		defs := localDefs(info, fd.Body)
+		isSession := func(e ast.Expr) bool { return isRecvGlobal(info, fd, defs, e) }
+		isSelf := func(e ast.Expr) bool { return isRecvIdent(info, fd, defs.resolve1(info, e)) }
 		nRet, ok := 0, true
 		walkStack(fd.Body, func(nd ast.Node, stack []ast.Node) bool {
 			rs, isR := nd.(*ast.ReturnStmt)
@@ -116,28 +94,28 @@ func runC25(c *Ctx) {
 				ok = false
 				return true
 			}
-			arg := c.src(call.Args[0])
-			globalNil := 0
+			globalNil := 0 // what the guards of this return know about conf.global (nil on either side, through a local)
 			for _, f := range factsOf(guardsAt(info, stack)) {
-				if b, isB := unparen(f.E).(*ast.BinaryExpr); isB && isField(info, b.X, configT, "global") {
-					if nn, isN := unparen(b.Y).(*ast.Ident); isN && nn.Name == "nil" {
-						if (b.Op == token.EQL) == f.True {
-							globalNil = 1
-						} else {
-							globalNil = -1
-						}
+				if x, isNil, isT := nilTestFact(info, f); isT && isSession(x) {
+					if isNil {
+						globalNil = 1
+					} else {
+						globalNil = -1
 					}
 				}
 			}
+			arg := call.Args[0]
 			switch {
-			case arg == rv && globalNil == 1:
-			case arg == rv+".global" && globalNil == -1:
+			case sessionOrSelfLocal(info, fd, arg, isSession, isSelf):
+				// g := conf.global; if g == nil { g = conf }; newConfiguration(g)
+			case isSelf(arg) && globalNil == 1:
+			case isSession(arg) && globalNil == -1:
 			default:
 				ok = false
 			}
 			return true
 		})
-		c.Check(ok && nRet == 2, "R25d", "Copy:parents-to-session", fd.Pos(), "Copy parents the child to the session config (conf.global if the receiver is itself a child, else the receiver): a nested call does not inherit its caller's local overrides")
+		c.Check(ok && nRet >= 1, "R25d", "Copy:parents-to-session", fd.Pos(), "Copy parents the child to the session config (conf.global if the receiver is itself a child, else the receiver): a nested call does not inherit its caller's local overrides")
 	}
 	if fd, _ := c.MustFunc("R25d", "config", "", "newConfiguration"); fd != nil {
 		okParent, copies := false, false
@@ -145,18 +123,33 @@ func runC25(c *Ctx) {
 		if fd.Type.Params != nil && len(fd.Type.Params.List) == 1 {
 			param = info.Defs[fd.Type.Params.List[0].Names[0]]
 		}
+		// a field initialisation: `conf.f = v` or the element `f: v` of a Config composite literal
+		initField := func(field string, v ast.Expr) {
+			switch field {
+			case "global":
+				if id, ok := unparen(v).(*ast.Ident); ok && info.ObjectOf(id) == param {
+					okParent = true
+				}
+			case "values", "properties", "fileRefSet":
+				if _, ok := isBuiltinCall(info, v, "make"); !ok {
+					copies = true
+				}
+			}
+		}
 		ast.Inspect(fd.Body, func(nd ast.Node) bool {
 			if as, ok := nd.(*ast.AssignStmt); ok && len(as.Lhs) == 1 && len(as.Rhs) == 1 {
-				if isField(info, as.Lhs[0], configT, "global") {
-					if id, ok := unparen(as.Rhs[0]).(*ast.Ident); ok && info.ObjectOf(id) == param {
-						okParent = true
-					}
+				if fv, owner := fieldOf(info, as.Lhs[0]); fv != nil && owner == configT {
+					initField(fv.Name(), as.Rhs[0])
 				}
-				for _, f := range []string{"values", "properties", "fileRefSet"} {
-					if isField(info, as.Lhs[0], configT, f) {
-						if _, ok := isBuiltinCall(info, as.Rhs[0], "make"); !ok {
-							copies = true
+			}
+			if lit, ok := nd.(*ast.CompositeLit); ok && namedPath(info.TypeOf(lit)) == configT {
+				for _, el := range lit.Elts {
+					if kv, ok := el.(*ast.KeyValueExpr); ok {
+						if id, ok := kv.Key.(*ast.Ident); ok {
+							initField(id.Name, kv.Value)
 						}
+					} else {
+						copies = true // positional literal: not decided
 					}
 				}
 			}
@@ -173,39 +166,57 @@ func runC25(c *Ctx) {
 		c.checkConfigSetRouting(info, fd)
 	}
 	if fd, _ := c.MustFunc("R25b", "config", "Config", "GetFileRef"); fd != nil {
-		// first statement after RLock: if conf.global != nil && values... { return local }
+		// a return whose guards know `conf.global != nil` and `conf.values[…]… != nil` (one condition or nested
+		// ifs, nil on either side) and whose enclosing arm reads the value from conf.values
 		okFirst, okFallback := false, false
+		defs := localDefs(info, fd.Body)
+		readsValues := func(n ast.Node) bool {
+			found := false
+			ast.Inspect(n, func(x ast.Node) bool {
+				if ix, ok := x.(*ast.IndexExpr); ok && isField(info, ix.X, configT, "values") && selPath(ix.X) == recvVar(fd)+".values" {
+					found = true
+				}
+				return true
+			})
+			return found
+		}
 		walkStack(fd.Body, func(nd ast.Node, stack []ast.Node) bool {
-			is, ok := nd.(*ast.IfStmt)
-			if !ok {
+			if _, ok := nd.(*ast.ReturnStmt); !ok {
 				return true
 			}
-			cs := conjuncts(is.Cond)
 			hasGlobal, hasValue := false, false
-			for _, e := range cs {
-				if b, isB := unparen(e).(*ast.BinaryExpr); isB && b.Op == token.NEQ {
-					if isField(info, b.X, configT, "global") {
+			for _, f := range factsOf(guardsAt(info, stack)) {
+				if x, isNil, ok := nilTestFact(info, f); ok && !isNil {
+					if isRecvGlobal(info, fd, defs, x) {
 						hasGlobal = true
 					}
-					if strings.Contains(c.src(b.X), ".values[") {
+					if readsValues(x) {
 						hasValue = true
 					}
 				}
 			}
-			if hasGlobal && hasValue && topLevelIndex(fd.Body.List, is) >= 0 && terminates(info, is.Body.List) {
-				// returns conf.values[app][key]
-				ast.Inspect(is.Body, func(x ast.Node) bool {
-					if as, isA := x.(*ast.AssignStmt); isA && len(as.Rhs) == 1 && strings.Contains(c.src(as.Rhs[0]), ".values[") {
-						okFirst = true
+			if !hasGlobal || !hasValue {
+				return true
+			}
+			// the innermost enclosing if-arm loads the answer from conf.values
+			for i := len(stack) - 1; i >= 0; i-- {
+				if blk, ok := stack[i].(*ast.BlockStmt); ok && i > 0 {
+					if _, isIf := stack[i-1].(*ast.IfStmt); isIf {
+						ast.Inspect(blk, func(x ast.Node) bool {
+							if as, isA := x.(*ast.AssignStmt); isA && len(as.Rhs) == 1 && readsValues(as.Rhs[0]) {
+								okFirst = true
+							}
+							return true
+						})
+						break
 					}
-					return true
-				})
+				}
 			}
 			return true
 		})
 		for _, call := range calls(fd.Body, false) {
 			if callIs(info, call, mx("config"), "Config", "GetFileRef") {
-				if se, ok := call.Fun.(*ast.SelectorExpr); ok && isField(info, se.X, configT, "global") {
+				if se, ok := call.Fun.(*ast.SelectorExpr); ok && isRecvGlobal(info, fd, defs, se.X) {
 					okFallback = true
 				}
 			}
@@ -214,40 +225,89 @@ func runC25(c *Ctx) {
 		c.Check(okFallback, "R25b", "GetFileRef:fallback-to-session", fd.Pos(), "when the option is not defined locally the read falls back to conf.global.GetFileRef")
 	}
 	if fd, _ := c.MustFunc("R25b", "config", "Config", "ExistsAndGlobal"); fd != nil {
-		okG := false
-		res := resultNames(fd)
-		ast.Inspect(fd.Body, func(nd ast.Node) bool {
-			if as, ok := nd.(*ast.AssignStmt); ok && len(as.Lhs) == 1 && len(as.Rhs) == 1 && len(res) == 2 {
-				if id, ok := as.Lhs[0].(*ast.Ident); ok && id.Name == res[1] {
-					cs := conjuncts(as.Rhs[0])
-					hasE, hasG := false, false
-					for _, e := range cs {
-						if x, ok := unparen(e).(*ast.Ident); ok && x.Name == res[0] {
-							hasE = true
-						}
-						if se, ok := unparen(e).(*ast.SelectorExpr); ok && se.Sel.Name == "Global" {
-							hasG = true
-						}
+		// the two results as objects: named results, or the identifiers of the (single form of) return statement
+		var existsObj, globalObj types.Object
+		if fd.Type.Results != nil {
+			var ids []*ast.Ident
+			for _, f := range fd.Type.Results.List {
+				ids = append(ids, f.Names...)
+			}
+			if len(ids) == 2 {
+				existsObj, globalObj = info.Defs[ids[0]], info.Defs[ids[1]]
+			}
+		}
+		if existsObj == nil {
+			ast.Inspect(fd.Body, func(nd ast.Node) bool {
+				if rs, ok := nd.(*ast.ReturnStmt); ok && len(rs.Results) == 2 {
+					a, okA := unparen(rs.Results[0]).(*ast.Ident)
+					b, okB := unparen(rs.Results[1]).(*ast.Ident)
+					if okA && okB {
+						existsObj, globalObj = info.ObjectOf(a), info.ObjectOf(b)
 					}
-					okG = hasE && hasG && len(cs) == 2
+				}
+				return true
+			})
+		}
+		isExists := func(e ast.Expr) bool {
+			id, ok := unparen(e).(*ast.Ident)
+			return ok && existsObj != nil && info.ObjectOf(id) == existsObj
+		}
+		isGlobalFlag := func(e ast.Expr) bool {
+			return isField(info, e, mx("config")+".Properties", "Global")
+		}
+		// every assignment to the `global` result is `exists && <…>.Global` (either order), or `<…>.Global` under
+		// a guard that knows `exists`
+		nAs, okG := 0, true
+		walkStack(fd.Body, func(nd ast.Node, stack []ast.Node) bool {
+			as, ok := nd.(*ast.AssignStmt)
+			if !ok || len(as.Lhs) != len(as.Rhs) {
+				return true
+			}
+			for k, l := range as.Lhs {
+				id, isId := l.(*ast.Ident)
+				if !isId || globalObj == nil || info.ObjectOf(id) != globalObj {
+					continue
+				}
+				nAs++
+				cs := conjuncts(as.Rhs[k])
+				hasE, hasG := false, false
+				for _, e := range cs {
+					hasE = hasE || isExists(e)
+					hasG = hasG || isGlobalFlag(e)
+				}
+				guarded := false
+				for _, f := range factsOf(guardsAt(info, stack)) {
+					if f.True && isExists(f.E) {
+						guarded = true
+					}
+				}
+				switch {
+				case hasE && hasG && len(cs) == 2:
+				case hasG && len(cs) == 1 && guarded:
+				default:
+					okG = false
 				}
 			}
 			return true
 		})
-		c.Check(okG, "R25b", "ExistsAndGlobal:global", fd.Pos(), "global = exists ∧ properties[app][key].Global")
+		c.Check(okG && nAs >= 1, "R25b", "ExistsAndGlobal:global", fd.Pos(), "global = exists ∧ properties[app][key].Global")
 	}
 	if fd, _ := c.MustFunc("R25b", "config", "Config", "Default"); fd != nil {
 		rv := recvVar(fd)
 		ok := false
-		for _, s := range fd.Body.List {
-			if rs, isR := s.(*ast.ReturnStmt); isR && len(rs.Results) == 1 {
+		ast.Inspect(fd.Body, func(nd ast.Node) bool {
+			if _, isLit := nd.(*ast.FuncLit); isLit {
+				return false
+			}
+			if rs, isR := nd.(*ast.ReturnStmt); isR && len(rs.Results) == 1 {
 				if call, isC := unparen(rs.Results[0]).(*ast.CallExpr); isC && callIs(info, call, mx("config"), "Config", "Set") {
 					if se := call.Fun.(*ast.SelectorExpr); selPath(se.X) == rv {
 						ok = true
 					}
 				}
 			}
-		}
+			return true
+		})
 		readsDefault := false
 		ast.Inspect(fd.Body, func(nd ast.Node) bool {
 			if se, isS := nd.(*ast.SelectorExpr); isS && se.Sel.Name == "Default" {
@@ -291,6 +351,16 @@ func runC25(c *Ctx) {
 		binfo := bp.TypesInfo
 		nSet, nDef, bad := 0, 0, ""
 		eachFunc(bp, func(fd *ast.FuncDecl) {
+			defs := localDefs(binfo, fd.Body)
+			// the calling process's config: <*lang.Process parameter>.Config, possibly through a single-definition local
+			isCallerConfig := func(e ast.Expr) bool {
+				se, ok := defs.resolve1(binfo, e).(*ast.SelectorExpr)
+				if !ok || !isField(binfo, se, mx("lang")+".Process", "Config") {
+					return false
+				}
+				id, ok := unparen(se.X).(*ast.Ident)
+				return ok && isParam(binfo, fd, id)
+			}
 			for _, call := range calls(fd.Body, true) {
 				o := callee(binfo, call)
 				if o == nil || o.Pkg() == nil || o.Pkg().Path() != mx("config") {
@@ -303,12 +373,12 @@ func runC25(c *Ctx) {
 				switch o.Name() {
 				case "Set":
 					nSet++
-					if c.src(se.X) != "p.Config" {
+					if !isCallerConfig(se.X) {
 						bad = c.src(call)
 					}
 				case "Default":
 					nDef++
-					if c.src(se.X) != "p.Config" {
+					if !isCallerConfig(se.X) {
 						bad = c.src(call)
 					}
 				}
@@ -333,12 +403,20 @@ func (c *Ctx) checkConfigSetRouting(info *types.Info, fd *ast.FuncDecl) {
 	rv := recvVar(fd)
 	// find: if conf.global != nil { exists, global := conf.global.ExistsAndGlobal(app,key); if <pred> { return conf.global.Set(...) } }
 	var outer *ast.IfStmt
+	defs := localDefs(info, fd.Body)
+	isSession := func(e ast.Expr) bool { return isRecvGlobal(info, fd, defs, e) }
 	for _, s := range fd.Body.List {
 		if is, ok := s.(*ast.IfStmt); ok {
-			if b, ok := unparen(is.Cond).(*ast.BinaryExpr); ok && b.Op == token.NEQ && isField(info, b.X, configT, "global") {
-				outer = is
+			// `conf.global != nil`, nil on either side, possibly on a local defined as conf.global (if-init or before)
+			for _, f := range factsOf([]Guard{{Cond: is.Cond}}) {
+				if x, isNil, ok := nilTestFact(info, f); ok && !isNil && isSession(x) {
+					outer = is
+				}
+			}
+			if outer != nil && len(conjuncts(is.Cond)) == 1 {
 				break
 			}
+			outer = nil
 		}
 		// anything that locks before the routing voids it
 		if es, ok := s.(*ast.ExprStmt); ok {
@@ -355,10 +433,16 @@ func (c *Ctx) checkConfigSetRouting(info *types.Info, fd *ast.FuncDecl) {
 	}
 	var existsObj, globalObj types.Object
 	var inner *ast.IfStmt
+	stmts := append([]ast.Stmt(nil), outer.Body.List...)
 	for _, s := range outer.Body.List {
+		if is, ok := s.(*ast.IfStmt); ok && is.Init != nil {
+			stmts = append(stmts, is.Init) // `if exists, global := conf.global.ExistsAndGlobal(app, key); <pred> {`
+		}
+	}
+	for _, s := range stmts {
 		if as, ok := s.(*ast.AssignStmt); ok && len(as.Lhs) == 2 && len(as.Rhs) == 1 {
 			if call, ok := as.Rhs[0].(*ast.CallExpr); ok && callIs(info, call, mx("config"), "Config", "ExistsAndGlobal") {
-				if se := call.Fun.(*ast.SelectorExpr); isField(info, se.X, configT, "global") {
+				if se := call.Fun.(*ast.SelectorExpr); isSession(se.X) {
 					if a, ok := as.Lhs[0].(*ast.Ident); ok {
 						existsObj = info.ObjectOf(a)
 					}
@@ -404,7 +488,7 @@ func (c *Ctx) checkConfigSetRouting(info *types.Info, fd *ast.FuncDecl) {
 	if len(inner.Body.List) == 1 {
 		if rs, ok := inner.Body.List[0].(*ast.ReturnStmt); ok && len(rs.Results) == 1 {
 			if call, ok := unparen(rs.Results[0]).(*ast.CallExpr); ok && callIs(info, call, mx("config"), "Config", "Set") {
-				if se := call.Fun.(*ast.SelectorExpr); isField(info, se.X, configT, "global") && selPath(se.X) == rv+".global" {
+				if se := call.Fun.(*ast.SelectorExpr); isSession(se.X) {
 					fwd = len(call.Args) == 4
 					for i, a := range call.Args {
 						id, ok := unparen(a).(*ast.Ident)
@@ -458,4 +542,74 @@ func flatParams(fd *ast.FuncDecl) []string {
 		}
 	}
 	return out
+}
+
+// isRecvIdent: e is the receiver variable of fd.
+func isRecvIdent(info *types.Info, fd *ast.FuncDecl, e ast.Expr) bool {
+	id, ok := unparen(e).(*ast.Ident)
+	if !ok || fd.Recv == nil || len(fd.Recv.List) != 1 || len(fd.Recv.List[0].Names) != 1 {
+		return false
+	}
+	return info.ObjectOf(id) != nil && info.ObjectOf(id) == info.Defs[fd.Recv.List[0].Names[0]]
+}
+
+// isRecvGlobal: e denotes <receiver>.global of a *config.Config method — written out, or a single-definition
+// local that was initialised with it (`session := conf.global`).
+func isRecvGlobal(info *types.Info, fd *ast.FuncDecl, defs defMap, e ast.Expr) bool {
+	se, ok := defs.resolve1(info, e).(*ast.SelectorExpr)
+	return ok && isField(info, se, configT, "global") && isRecvIdent(info, fd, se.X)
+}
+
+// sessionOrSelfLocal: e is a local g with exactly the two definitions `g := conf.global` and, guarded by
+// `g == nil`, `g = conf` — the session config when the receiver is a child, else the receiver itself (the idiom
+// Config.Default uses).
+func sessionOrSelfLocal(info *types.Info, fd *ast.FuncDecl, e ast.Expr, isSession, isSelf func(ast.Expr) bool) bool {
+	id, ok := unparen(e).(*ast.Ident)
+	if !ok {
+		return false
+	}
+	o := info.ObjectOf(id)
+	if o == nil || isRecvIdent(info, fd, id) {
+		return false
+	}
+	nDef, okInit, okSelf := 0, false, false
+	walkStack(fd.Body, func(nd ast.Node, stack []ast.Node) bool {
+		switch x := nd.(type) {
+		case *ast.UnaryExpr:
+			if a, isA := unparen(x.X).(*ast.Ident); isA && x.Op == token.AND && info.ObjectOf(a) == o {
+				nDef += 10 // address taken: not decided
+			}
+		case *ast.AssignStmt:
+			if len(x.Lhs) != len(x.Rhs) {
+				for _, l := range x.Lhs {
+					if a, isA := l.(*ast.Ident); isA && info.ObjectOf(a) == o {
+						nDef += 10
+					}
+				}
+				return true
+			}
+			for k, l := range x.Lhs {
+				a, isA := l.(*ast.Ident)
+				if !isA || info.ObjectOf(a) != o {
+					continue
+				}
+				nDef++
+				if x.Tok == token.DEFINE && isSession(x.Rhs[k]) && nDef == 1 {
+					okInit = true
+					continue
+				}
+				if isSelf(x.Rhs[k]) {
+					for _, f := range factsOf(guardsAt(info, stack)) {
+						if t, isNil, isT := nilTestFact(info, f); isT && isNil {
+							if tid, isId := unparen(t).(*ast.Ident); isId && info.ObjectOf(tid) == o {
+								okSelf = true
+							}
+						}
+					}
+				}
+			}
+		}
+		return true
+	})
+	return nDef == 2 && okInit && okSelf
 }
